@@ -294,6 +294,9 @@ unit("fx.dropall", ["C05", "C01", "C06"], "units/u_fetch.c", entry="h_fx_dropall
 # ------------------------------------------------------------------------------------------
 unit("peer.init", ["C08", "C06"], "units/u_peer.c", entry="h_peer_init", functions=["init_peer"], unwind=4, solver="cadical",
      expect_tags=["C08.peer.new-peer-holds-no-groups"], timeout=120, assumes=["add_routing_table: returns 0 or -1"])
+unit("peer.teardown", ["C05", "C01", "C07", "C06"], "units/u_peer.c", entry="h_peer_teardown", shared_tags=True, functions=["free_peer_resources", "remove_peer_from_routes", "init_peer"], unwind=5, solver="cadical",
+     flags=["--memory-leak-check"], expect_tags=["C05.teardown.fetches-end-before-elements-disappear", "C05.teardown.peer-unlinked-others-stay"], timeout=120,
+     assumes=["the five teardown callees are recording stubs (their own behaviour: rt.ownerdown, rt.bystander, fx.dropall, el.remove)"])
 unit("peer.log", ["C06"], "units/u_peer.c", entry="h_peer_log", functions=["log_peer_err", "log_peer_info", "get_peer_name"], unwind=4, solver="cadical",
      expect_tags=["C06.log.size-fits-remaining-buffer"], timeout=120,
      assumes=["snprintf/vsnprintf: write at most `size` bytes, return the would-be length (any value >= 0)"])
@@ -396,7 +399,7 @@ unit("alloc.acct", ["C07", "C15", "C06"], "units/u_alloc.c", entry="h_alloc_acct
      flags=["--malloc-may-fail", "--malloc-fail-null"], expect_tags=["C07.alloc.accounting-exact", "C07.alloc.cap-respected"], timeout=300,
      assumes=["request sizes <= 2^32 bytes, nmemb <= 2^16 (derived from the call sites)"])
 
-unit("loop.batch", ["C14", "C09", "C06"], "units/u_loop.c", entry="h_loop_batch", functions=["handle_events", "eventloop_epoll_remove"], unwind=5, solver="cadical",
+unit("loop.batch", ["C14", "C09", "C11", "C06"], "units/u_loop.c", entry="h_loop_batch", functions=["handle_events", "eventloop_epoll_remove"], unwind=5, solver="cadical",
      kind="proof", bound="batches of <= 3 events over 3 registered io_events (CONFIG_MAX_EPOLL_EVENTS is 10)",
      expect_tags=["C14.batch.dispatched-event-is-still-registered", "C09.batch.every-readable-event-of-the-batch-is-read-once"], timeout=300,
      replay={"c": "replay/loop_replay.c", "extract": "loop_extract"},
@@ -440,4 +443,56 @@ PROPERTY_META["C06"] = {
     "not_decided": ["whole-daemon input robustness", "parse.c message boundary", "http_parser / cJSON internals"],
 }
 
+PROPERTY_META["C04"] = {
+    "level": "proof",
+    "level_text": ("The four element handlers of element.c (add, change, remove, set/call) are proved against the statement for every member shape of the request (missing / mistyped path, value incl. null, fetchOnly, "
+                   "access lists, timeout, args, id), <= 2 existing elements on two peers with every owner assignment, symbolic paths of 1-2 characters (so prefix-related and equal paths occur): add succeeds only on a free "
+                   "path and indexes exactly one new element owned by the requester; change only by the owner and only for states; remove only an element of the requester with exactly that path; set/call refusals; "
+                   "EVERY refused or failed request leaves the set of elements, the owners' lists and all values unchanged and builds exactly one response. The path index is a ghost finite map whose behaviour is what the "
+                   "hashtable units (also run for this property) prove for the real table."),
+    "level_note": ("Bounded shapes (<= 2 elements, paths <= 2 characters); cJSON, fetch notification, router entry points and response builders are stubs/models with their contracts. Not covered: table.c glue code itself, "
+                   "`get`, string-keyed hashtable instantiation, configured resource limits other than 'index full'."),
+    "explanation": "C04: harness contracts on add_element_to_peer/init_element, change_state, remove_element_from_peer, set_or_call plus the hashtable finite-map units.",
+    "not_decided": ["whole-history reference-map equality (follows by induction outside the verifier)", "paths longer than 2 characters"],
+}
+PROPERTY_META["C03"] = {
+    "level": "proof",
+    "level_text": ("Routed set/call, per function: entry (set_or_call: record names caller, owner, original id; one message to the owner only with path and the caller's value/args; refusals before anything is routed), "
+                   "id allocation (consecutive requests get different counter values), set-up (registered + armed with the right deadline, or refused with no entry and no armed timer), owner reply (only the replying peer's own table; "
+                   "exactly one answer with the caller's id and the owner's payload; other requests untouched; unknown / forged / id-less / duplicated replies have no effect), timeout, owner shutdown (each caller with an id gets "
+                   "exactly one shutdown error, table empty) and bystander disconnect (requests of other callers untouched) - from every table shape of <= 2 in-flight requests with nondeterministic slot placement."),
+    "level_note": ("The routing table is abstracted by its finite-map contract over router.c's real slot array (justified by the hashtable units, which are part of this check); timers, allocator, send functions and response "
+                   "builders are recording stubs; 2-4 slot tables. Interleavings of several callers/owners are covered only as 'every step preserves the per-call contract'. The send-failure-after-registration case "
+                   "(error now, timeout later) is not asserted against."),
+    "explanation": "C03: harness contracts on set_or_call, alloc_routing_request, setup_routing_information, handle_routing_response, request_timeout_handler, remove_routing_info_from_peer, remove_peer_from_routing_table.",
+    "not_decided": ["multi-step interleavings", "uniqueness beyond the counter (32-bit wrap, id truncation by one character)"],
+}
+PROPERTY_META["C01"] = {
+    "level": "other",
+    "level_text": ("Per-operation invariants of the fetch replica, not the replica equality itself: events reach exactly the subscribed fetches with fetch id, path, event and current value (notify_fetchers), a fetch meets an element "
+                   "(access check, subscription exactly once, 'add' announced once), subscription-table growth keeps all subscriptions, ending fetches leaves no element mentioning them, add/change/remove handlers emit their event "
+                   "once and in the right order relative to the index update, teardown ends fetches before elements disappear."),
+    "level_note": ("The statement's whole-history replica equality and 'nothing after the unfetch response' follow from these per-step facts only by induction outside the verifier. Known finding KF-C01-1 (add announced, then "
+                   "refused by a full index) is reported, not repaired. Fetch rules are fetch-all in these units (rule matching: C16)."),
+    "explanation": "C01: harness contracts on notify_fetchers, notify_fetching_peer, add_fetch_to_state(_and_notify), remove_all_fetchers_from_peer, element handlers, free_peer_resources.",
+    "not_decided": ["replica equality over histories", "add_fetch_to_states ordering w.r.t. the success response", "get_elements"],
+}
+PROPERTY_META["C05"] = {
+    "level": "other",
+    "level_text": ("Teardown, per function: free_peer_resources runs every step once in the order that keeps other peers consistent and unlinks only the leaving peer; the owner's in-flight requests are all answered with a "
+                   "shutdown error and released; a leaving caller's own requests are dropped while other callers' requests stay; ending a peer's fetches leaves no element mentioning them and other peers' subscriptions untouched."),
+    "level_note": ("Transport-level release order (socket_peer.c / websocket_peer.c: bookkeeping vs. closing the connection), 'nothing is ever written to a released connection' and the read-loop hand-over are NOT covered; "
+                   "whole-history clauses are outside per-function contracts."),
+    "explanation": "C05: harness contracts on free_peer_resources, remove_routing_info_from_peer, remove_peer_from_routing_table, remove_all_fetchers_from_peer.",
+    "not_decided": ["websocket/raw transport close paths", "mid-message / mid-frame disconnect positions"],
+}
+PROPERTY_META["C11"] = {
+    "level": "proof",
+    "level_text": ("Delivery loop isolation: notify_fetchers is proved to attempt the delivery to EVERY subscriber exactly once for every arrangement of the subscription table and every subset of failing peers, and to report a failure; "
+                   "the event loop aborts only when a callback asks for it."),
+    "level_note": ("Only the delivery loop and the batch loop are covered. accept() failures, the add/fetch loops that still stop at the first failure (add_fetch_to_states_in_peer, find_fetchers_for_element), and the relative "
+                   "'same history with healthy peers' claim are not covered."),
+    "explanation": "C11: harness contracts on notify_fetchers and handle_events.",
+    "not_decided": ["accept path", "other delivery loops", "history-relative clause"],
+}
 PENDING = {}
